@@ -76,6 +76,28 @@ def run(ctx):
             continue
         ms = np.asarray(fp.pvt_props["m-scaled"], float)
         ev += 1
+        # the same table as a DataFrame whose integer index labels are not 0..n-1 in row order (a lab table listed from high
+        # to low pressure and then sorted, or concatenated pieces): rows are what they are, labels must not matter
+        if k % 2 == 0:
+            import pandas as pd
+            base_df = pd.DataFrame({c: np.asarray(v, float) for c, v in tb2.items() if np.ndim(v) == 1 and len(v) == len(P)})
+            for how, df in (("default index", base_df),
+                            ("listed high-to-low then sorted", base_df.iloc[::-1].reset_index(drop=True).sort_values("pressure")),
+                            ("shuffled then sorted", base_df.sample(frac=1.0, random_state=int(rng.integers(0, 2 ** 31))).reset_index(drop=True).sort_values("pressure"))):
+                try:
+                    with warnings.catch_warnings():
+                        warnings.simplefilter("ignore")
+                        fpd = FlowPropertiesTwoPhase.from_table(df, krt, rho, 0.1, sw, p_i)
+                    msd = np.asarray(fpd.pvt_props["m-scaled"], float)
+                    mraw = np.asarray(pseudopressure_threephase(df["pressure"], df["So"], pvt, kr), float)
+                except Exception as e:  # noqa: BLE001
+                    bad("FlowPropertiesTwoPhase.from_table / pseudopressure_threephase fails on an admissible DataFrame table", dict(**inp, index=how), repr(e)[:200])
+                    continue
+                ev += 1
+                if not (np.allclose(msd, ms, rtol=1e-10, atol=1e-13) and np.allclose(mraw, want, rtol=1e-10, atol=1e-12 * abs(want[-1]))):
+                    bad("multiphase pseudopressure of a DataFrame table depends on its index labels (it is not the integral of the documented mobility over the rows' pressures)",
+                        dict(**inp, index=how), dict(scaled=[float(x) for x in msd[:4]], scaled_expected=[float(x) for x in ms[:4]],
+                                                     raw=[float(x) for x in mraw[:4]], raw_expected=[float(x) for x in want[:4]]))
         pf = float(rng.uniform(P[1], p_i * 0.999))
         mf = float(fp.m_scaled_func(pf))
         if np.any(np.diff(ms) <= 0) or not dom.relclose(float(fp.m_i), 1.0, 1e-10) or not dom.relclose(float(ms[j]), 1.0, 1e-10) or not (0 <= mf < 1):
